@@ -403,6 +403,25 @@ pub fn run(tier: Tier) -> i32 {
         }
         stats.merge(st);
     }
+    // one packet with a body of 255 .. 65535 bytes, the stream ending at every offset of the header, of the first and of the
+    // last 8 bytes of the body (and right behind it): an error inside, the packet at the end
+    {
+        let mut st = Stats::new();
+        for n in [255usize, 256, 1023, 1024, 1025, 1500, 4095, 4096, 4097, 65535] {
+            let p = ref_frame(BLOB_CTRL.0, BLOB_CTRL.1, &blob_body(n, n as u8));
+            let total = p.len();
+            let cuts: Vec<usize> = (0..=13).chain(total - 9..=total).collect();
+            for eof in cuts {
+                for chunks in [vec![], vec![7usize], vec![1000]] {
+                    let c = StreamCase { packets: vec![hex(&p)], chunks, eof: Some(eof), picky: false, interrupt_at: None };
+                    st.case(true, fnv(&[n as u8, (n >> 8) as u8, eof as u8, (eof >> 8) as u8, c.chunks.len() as u8]));
+                    st.class("large-body:stream-ends-near-its-end");
+                    ctx.record(check_stream(&c), &mut st);
+                }
+            }
+        }
+        stats.merge(st);
+    }
     let nrand: u32 = tier.pick(20_000, 400_000);
     let big = tier.pick(2u32, 6);
     let s = ctx.shards("random", 16, |_i, seed, st| {
